@@ -35,6 +35,7 @@ pub const POINTS: &[&str] = &[
     "publish.after_visible",
     "commit.after_publish",
     "rotate.before",
+    "iter.state.after_immutables",
     "flush.after_sst",
     "flush.after_index",
     "flush.before_wal_cleanup",
@@ -380,6 +381,14 @@ pub fn run_cell(dir: &Path, cfg: &Cfg, point: &'static str, action: Action) -> O
         t.verif_rotate().map_err(|e| format!("rotate: {e}"))?;
         wait_helper!();
         snap("after the driver's rotation");
+        // a range cursor created here: its view is put together from the active memtable, the
+        // immutable ones and the levels, with a yield point in between
+        let mid = open_reader("scanning in the driver while memtables are immutable")?;
+        let mid_scan = (mid.horizon, read_all(&mid.tx));
+        if hold {
+            readers.lock().unwrap().push(mid);
+        }
+        wait_helper!();
         t.verif_flush_one().map_err(|e| format!("flush: {e}"))?;
         tokio::time::sleep(std::time::Duration::from_millis(3)).await; // detached WAL clean-up
         wait_helper!();
@@ -423,6 +432,15 @@ pub fn run_cell(dir: &Path, cfg: &Cfg, point: &'static str, action: Action) -> O
         }
         order.sort();
         let visible = t.verif_visible_seq();
+        match &mid_scan.1 {
+            Ok(got) => {
+                let exp = state_at(&order, mid_scan.0);
+                if *got != exp {
+                    problems.lock().unwrap().push(Problem { class: "snapshot_read", what: format!("range cursor created in the driver after its rotation (horizon {}): scan: {}", mid_scan.0, diff(got, &exp)) });
+                }
+            }
+            Err(e) => problems.lock().unwrap().push(Problem { class: "read_error", what: format!("range cursor created in the driver after its rotation: scan failed: {e}") }),
+        }
         for r in readers.lock().unwrap().iter() {
             let exp = state_at(&order, r.horizon);
             match read_all(&r.tx) {
